@@ -116,6 +116,8 @@ def handle (fn : String) (a : List Float) : Option (List Float) :=
   | "mr.nearzero" => match a with | [z] => some [if nearZero z then 1 else 0] | _ => none
   | "mr.norm" => do let (v, _) ← v3 a; some [norm3 v]
   | "mr.normalize" => do let (v, _) ← v3 a; some (oV3 (normalize v))
+  | "mr.cubic" => match a with | [tf, t] => some [cubicTimeScaling tf t] | _ => none
+  | "mr.quintic" => match a with | [tf, t] => some [quinticTimeScaling tf t] | _ => none
   | "mr.hat" => do let (v, _) ← v3 a; some (oM3 (hat v))
   | "mr.vee" => do let (m, _) ← m3 a; some (oV3 (vee m))
   | "mr.axisang3" => do let (v, _) ← v3 a; let r := axisAng3 v; some (oV3 r.1 ++ [r.2])
